@@ -36,6 +36,8 @@ EXPECT = {
     "seed-C15-i": ["C15"], "seed-C16-i": ["C16", "C08"], "seed-C18-i": ["C18"],
     "seed-C02-j": ["C02", "C05"], "seed-C03-j": ["C03", "C05"], "seed-C05-j": ["C05"], "seed-C08-j": ["C08"], "seed-C11-j": ["C11"], "seed-C12-j": ["C12"],
     "seed-C13-j": ["C13"], "seed-C15-j": ["C15"], "seed-C16-j": ["C16", "C05"], "seed-C19-j": ["C19"],
+    "seed-C02-k": ["C02"], "seed-C06-k": ["C18"], "seed-C07-k": ["C07"], "seed-C09-k": ["C18"], "seed-C10-k": ["C10"], "seed-C13-k": ["C13"], "seed-C14-k": ["C14"],
+    "seed-C17-k": ["C17"], "seed-C18-k": ["C18"], "seed-C19-k": ["C19"],
 }
 
 
